@@ -467,13 +467,20 @@ func (w *World) applyRebatched(n *Node, b *Block) {
 func (w *World) applyPartial(n *Node, b *Block) {
 	nb := &nodeBlk{preRem: copySet(n.remembered)}
 	n.blk[b.ID] = nb
+	bDels, bProof := b.Dels, b.Proof
+	if n.cfg.Relay == "reenc" {
+		// C05: the block arrives in an accepted but non-canonical encoding
+		if d2, p2, ok := w.reencode(n, b); ok {
+			bDels, bProof = d2, p2
+		}
+	}
 	if len(b.Dels) > 0 {
-		usePartial := w.on("c14proto") && SubRng(b.Seed^uint64(n.idx), "pp").Pct(60)
+		usePartial := w.on("c14proto") && n.cfg.Relay == "" && SubRng(b.Seed^uint64(n.idx), "pp").Pct(60)
 		if usePartial {
 			w.partialFetchVerify(n, b.Pre, b.Dels, b.Proof.Targets, true)
 		} else {
-			g := w.fp.begin("Verify", b.Dels, b.Proof.Targets, b.Proof.Proof)
-			err, _ := guard(func() error { return n.mp.Verify(b.Dels, b.Proof, true) })
+			g := w.fp.begin("Verify", bDels, bProof.Targets, bProof.Proof)
+			err, _ := guard(func() error { return n.mp.Verify(bDels, bProof, true) })
 			g.end()
 			w.count("verify_honest")
 			if err != nil {
@@ -497,8 +504,8 @@ func (w *World) applyPartial(n *Node, b *Block) {
 	for i := range nb.leaves {
 		nb.leaves[i] = u.Leaf{Hash: b.Adds[i], Remember: flags[i]}
 	}
-	g := w.fp.begin("Modify", b.Dels, b.Proof.Targets, b.Proof.Proof, nb.leaves)
-	err, _ := guard(func() error { return n.mp.Modify(nb.leaves, b.Dels, b.Proof) })
+	g := w.fp.begin("Modify", bDels, bProof.Targets, bProof.Proof, nb.leaves)
+	err, _ := guard(func() error { return n.mp.Modify(nb.leaves, bDels, bProof) })
 	g.end()
 	if err != nil {
 		w.blame(n, "apply-err", fmt.Sprintf("partial Modify failed on an honest block %d: %v", b.ID, err))
